@@ -41,7 +41,7 @@ TR = 'chainables.transform'
 
 
 def run(ctx: Ctx):
-  for r in (r1, r2, r3, r4, r5, r6, r9, r11, r12, r13, r14, r15, r16):
+  for r in (r1, r2, r3, r4, r5, r6, r9, r11, r12, r13, r14, r15, r16, r17):
     ctx.guard(r)
   from mlmverif.props import c09
   ctx.include('R-C12-10', 'error skipping configured on a data source survives a'
@@ -886,6 +886,55 @@ def r16(ctx: Ctx):
   ctx.floor(rule, 3, n)
 
 
+def r17(ctx: Ctx):
+  rule = 'R-C12-17'
+  ctx.rule(rule, '"elements after a failing one are never silently lost" with threads: the wrapper the'
+           ' worker threads share over one source (_ThreadSafeIterator) passes a failure of the source'
+           ' through without changing its own state — in __next__ no attribute of the wrapper is'
+           ' stored on a path that leads into the draw `next(self.<it>)` and is only restored after'
+           ' the draw returned: when the draw raises a skippable error the store would stick (e.g. an'
+           ' "ended" flag set before and cleared after), and every later read ends the stream although'
+           ' the source has more records')
+  ci = ctx.repo.cls(IU, '_ThreadSafeIterator')
+  fi = ci.methods.get('__next__')
+  if fi is None:
+    raise AnalysisError(f'{rule}: _ThreadSafeIterator.__next__ missing')
+  g = cfgm.cfg_of(fi.node)
+  draws = [nd for nd in g.nodes if nd.kind in ('stmt', 'cond') and any(
+      isinstance(c, ast.Call) and unparse(c.func) == 'next' and c.args and is_self_attr(c.args[0])
+      for c in cfgm.node_exprs(nd))]
+  if not draws:
+    raise AnalysisError(f'{rule}: _ThreadSafeIterator.__next__ no longer draws with next(self.<it>)')
+  def store_of(nd):
+    if isinstance(nd.ast, (ast.Assign, ast.AugAssign)):
+      for t in (nd.ast.targets if isinstance(nd.ast, ast.Assign) else [nd.ast.target]):
+        if is_self_attr(t):
+          return t.attr
+    return None
+  n = 0
+  for d in draws:
+    n += 1
+    before = {store_of(nd) for nd in g.nodes if store_of(nd) and d in g.reachable([nd], edge_ok=cfgm.only_normal)}
+    after = {store_of(nd) for nd in g.reachable([s_ for s_, lab in d.succ if lab not in ('exc', 'close')],
+                                                edge_ok=cfgm.only_normal, include_src=True) if store_of(nd)}
+    # on the exceptional way out of the draw: is a pre-draw store undone in a handler?
+    toggled = sorted(before & after)
+    undone = set()
+    for h, lab in d.succ:
+      if lab == 'exc' and h is not g.exit_exc:
+        undone |= {store_of(nd) for nd in g.reachable([h], edge_ok=lambda a, b, l: l != 'close', include_src=True) if store_of(nd)}
+    bad = [f for f in toggled if f not in undone]
+    if bad:
+      ctx.fail(rule, fi, '_ThreadSafeIterator.__next__: a failing draw leaves the wrapper unchanged',
+               f'self.{bad[0]} is stored before `{d.text()[:40]}` and restored only after it returned: when the shared'
+               ' source raises for one record (a skippable error), the store sticks — with a flag that short-cuts'
+               ' to StopIteration every thread sees the end of the stream and all records behind the failing one are'
+               ' silently lost', node=d.ast)
+    else:
+      ctx.ok(rule, fi, 'the draw is not bracketed by stores to the wrapper', d.ast)
+  ctx.floor(rule, 1, n)
+
+
 def r5(ctx: Ctx):
   rule = 'R-C12-5'
   ctx.rule(rule, 'causes: every `raise X(...)` lexically inside an `except ...'
@@ -941,6 +990,12 @@ from mlmverif.selfcheck import B, OK  # noqa: E402
 _F = 'chainables/tree_fns.py'
 _U = 'utils/iter_utils.py'
 VARIANTS = [
+    B('shared-iterator-remembers-end-after-any-error', 'utils/iter_utils.py',
+      '    with self._lock:\n      return next(self._iterator)',
+      '    with self._lock:\n      if getattr(self, \'_ended\', False):\n        raise StopIteration()\n      self._ended = True\n      value = next(self._iterator)\n      self._ended = False\n      return value', 'R-C12-17'),
+    OK('shared-iterator-remembers-end-on-stop-only', 'utils/iter_utils.py',
+       '    with self._lock:\n      return next(self._iterator)',
+       '    with self._lock:\n      try:\n        return next(self._iterator)\n      except StopIteration:\n        self._ended = True\n        raise'),
     B('filter-predicate-skips-twice', 'chainables/tree_fns.py',
       '    it_ = iter_utils.processed_with_inputs(\n        self._iterate, iter(input_iterator), ignore_error=self.ignore_error\n    )\n    return (elem for (value,), elem in it_ if value)',
       '    predicate = functools.partial(self._iterate, ignore_error=self.ignore_error)\n    it_ = iter_utils.processed_with_inputs(\n        predicate, iter(input_iterator), ignore_error=self.ignore_error\n    )\n    return (elem for (value,), elem in it_ if value)',
